@@ -23,6 +23,7 @@ type Ob struct {
 	Clause    string
 	ExpectSat bool
 	Lemmas    []string
+	Witness   *regexWitness // relang obligations: how a refutation (a value of s) is replayed on the real code
 }
 
 type unsupported struct {
